@@ -56,7 +56,11 @@ fn args() -> Result<Argument, Box<dyn Error>> {
     let mut ns = vec![];
     let mut no_indent = false;
 
-    let mut args = env::args();
+    let mut args = vec![];
+    for arg in env::args_os() {
+        args.push(arg.into_string().map_err(|_| "Specify arguments in UTF-8.")?);
+    }
+    let mut args = args.into_iter();
     args.next(); // skip exe.
     while let Some(arg) = args.next() {
         match arg.as_str() {
